@@ -202,6 +202,8 @@ func (r *run) main() int {
 		fmt.Printf("INCONCLUSIVE property=%s reason=no harness functions Verif%s_* found\n", r.prop, r.prop)
 		return 2
 	}
+	r.cfg.PureFuncs = directiveMatcher(files, "pure")
+	r.cfg.NoopFuncs = directiveMatcher(files, "noop")
 	eng := &interp.Engine{Prog: ld.prog, Cfg: r.cfg, Fset: ld.prog.Fset}
 	var results []*interp.HarnessResult
 	for _, h := range ld.harnesses {
@@ -214,13 +216,40 @@ func (r *run) main() int {
 		fmt.Printf("harness %-40s paths=%-7d forks=%-7d queries(sat/unsat/unk)=%d/%d/%d solver=%.1fs wall=%.1fs violations=%d inconclusive=%d\n",
 			res.Name, st.Paths, sum(st.Forks), st.Solver.Sat, st.Solver.Unsat, st.Solver.Unknown, st.Solver.Time.Seconds(), res.Wall.Seconds(), len(res.Violations), len(res.Inconclusive))
 		if r.verbose {
-			fmt.Fprintf(os.Stderr, "  outcomes=%v reach=%v merges=%d wraps=%d\n", st.Outcomes, st.Reach, st.Merges, st.WrapTerms)
+			fmt.Fprintf(os.Stderr, "  outcomes=%v reach=%v merges=%d wraps=%d pure(merged/aborted)=%d/%d\n", st.Outcomes, st.Reach, st.Merges, st.WrapTerms, st.PureMerges, st.PureAborts)
 			for _, s := range topN(st.ForkSites, 8) {
 				fmt.Fprintf(os.Stderr, "  fork site %s\n", s)
 			}
 		}
 	}
 	return r.conclude(ld, files, results, loadTime)
+}
+
+// directiveMatcher compiles the `// verif:<kind> <regexp>` lines of the harness files.
+func directiveMatcher(files []harnessFile, kind string) func(string) bool {
+	var res []*regexp.Regexp
+	for _, f := range files {
+		b, err := os.ReadFile(f.path)
+		if err != nil {
+			continue
+		}
+		for _, line := range strings.Split(string(b), "\n") {
+			if s, ok := strings.CutPrefix(strings.TrimSpace(line), "// verif:"+kind+" "); ok {
+				res = append(res, regexp.MustCompile(strings.TrimSpace(s)))
+			}
+		}
+	}
+	if len(res) == 0 {
+		return nil
+	}
+	return func(name string) bool {
+		for _, re := range res {
+			if re.MatchString(name) {
+				return true
+			}
+		}
+		return false
+	}
 }
 
 func sum(m map[string]int) int {
